@@ -94,8 +94,10 @@ def programs(tier: str):
                     continue
                 if c0_end == "cancel" and nchild != 1:
                     continue
-                if tier == "quick" and nchild == 2 and shape != "chain":
-                    continue  # quick: two children only as a chain (3 nesting levels)
+                if tier == "quick" and nchild == 2 and shape != "chain" and not (
+                    root_kind == "a" and c0_end == "return" and placement == ("create", "create")
+                ):
+                    continue  # quick: two children as a chain, or as two plain-task children
                 for nrec in range(1, b["records"] + 1):
                     if nchild == 2 and nrec > b["records_two_children"]:
                         continue
